@@ -73,7 +73,14 @@ func (e *Exec) enterLoop(li *loopInfo, phiVals map[ssa.Value]Val, st *State) {
 			if !ok {
 				panic("loop havoc of unregistered component " + n)
 			}
-			hst.Set(n, Fresh("lh$"+li.ord+"$"+n, srt))
+			nv := Fresh("lh$"+li.ord+"$"+n, srt)
+			hst.Set(n, nv)
+			if li.freshOnly[n] {
+				// every write in the loop targets an object allocated by this activation: objects that existed at
+				// function entry are untouched
+				r := BoundVar("r", SInt)
+				e.assume(Implies(e.curReach, Forall([]*Term{r}, Implies(Lt(RootOf(r), e.root().entry.next), Eq(Select(nv, r), Select(st.Get(n, srt), r))), []*Term{Select(nv, r)})))
+			}
 		}
 		if li.modset["next"] {
 			nn := Fresh("lnext$"+li.ord, SInt)
@@ -199,9 +206,17 @@ var modsetInProgress = map[*ssa.Function]bool{}
 
 func (e *Exec) loopModset(li *loopInfo) map[string]bool {
 	ms := map[string]bool{}
+	fr := map[string]bool{}
 	for b := range li.blocks {
 		for _, in := range b.Instrs {
-			e.P.instrModset(in, ms)
+			e.P.instrModsetF(in, ms, fr)
+		}
+	}
+	li.freshOnly = map[string]bool{}
+	for n := range fr {
+		if !ms[n] {
+			li.freshOnly[n] = true
+			ms[n] = true
 		}
 	}
 	return ms
@@ -227,9 +242,10 @@ func (p *Program) FuncModset(fn *ssa.Function) map[string]bool {
 		modsetCache[fn] = ms
 		return ms
 	}
+	frDummy := map[string]bool{}
 	for _, b := range fn.Blocks {
 		for _, in := range b.Instrs {
-			p.instrModset(in, ms)
+			p.instrModsetF(in, ms, frDummy)
 		}
 	}
 	for _, an := range fn.AnonFuncs {
@@ -251,16 +267,33 @@ func addStructComps(t types.Type, ms map[string]bool) {
 }
 
 func (p *Program) instrModset(in ssa.Instruction, ms map[string]bool) {
+	p.instrModsetF(in, ms, map[string]bool{})
+}
+
+// instrModsetF: ms collects components that may be written on pre-existing objects, fr those written only on objects
+// this function activation allocated itself (a map created by make in the same function).
+func (p *Program) instrModsetF(in ssa.Instruction, ms, fr map[string]bool) {
 	switch x := in.(type) {
 	case *ssa.Store:
 		p.addrModset(x.Addr, ms)
 	case *ssa.MapUpdate:
 		k, v := mapSorts(x.Map.Type())
-		ms[mapDomComp(k, v)] = true
-		ms[mapValComp(k, v)] = true
+		tgt := ms
+		if _, ok := x.Map.(*ssa.MakeMap); ok {
+			tgt = fr
+		}
+		tgt[mapDomComp(k, v)] = true
+		tgt[mapValComp(k, v)] = true
 	case *ssa.Alloc, *ssa.MakeMap, *ssa.MakeSlice, *ssa.MakeInterface:
 		ms["next"] = true
 	case *ssa.Call:
+		if b, ok := x.Call.Value.(*ssa.Builtin); ok && b.Name() == "delete" {
+			if _, ok := x.Call.Args[0].(*ssa.MakeMap); ok {
+				k, v := mapSorts(x.Call.Args[0].Type())
+				fr[mapDomComp(k, v)] = true
+				return
+			}
+		}
 		p.callModset(&x.Call, ms)
 	case *ssa.Go, *ssa.Defer, *ssa.Send, *ssa.Select:
 		ms["*"] = true
